@@ -53,6 +53,9 @@ MUTANTS = [
   "                hunk.remove.content.push(line);\n                header.remove_count -= 1;\n\n                there_was_a_non_context_line = true;", ["C01.hunk_wf"], ["C11"]),
  ("parser", "src/libpatch/patch/unified/parser.rs", "        if count == 0 {\n            line as isize\n        } else {", "        if false {\n            line as isize\n        } else {", ["C01.start_lines"], ["C11"]),
  ("parser", "src/libpatch/patch/unified/parser.rs", "hunk.add.content.reserve(std::cmp::min(header.add_count, input.len()));", "hunk.add.content.reserve(header.add_count);", ["parse_hunk.body"], []),
+ # parse_hunk_header (verified body since the fifth seed round)
+ ("parser", "src/libpatch/patch/unified/parser.rs", "    let input = input.strip_prefix(b\" +\")", "    let input = input.strip_prefix(b\" -\")", ["C01.header"], []),
+ ("parser", "src/libpatch/patch/unified/parser.rs", "            add_line, add_count,\n            remove_line, remove_count,", "            add_line: remove_line, add_count,\n            remove_line: add_line, remove_count,", ["C01.header"], ["C11"]),
  # parse_hunks (totality): without the progress assignment the loop parses the same hunk for ever
  ("parser", "src/libpatch/patch/unified/parser.rs", "                hunks.push(hunk);\n                input = input_;", "                hunks.push(hunk);", ["C11.parse_hunks"], []),
  # parse_c_string (totality): the byte after a backslash "is always there"
